@@ -269,7 +269,7 @@ class Env:
 
 
 def initial_model(cfg, live):
-    _via, r, c = cfg[0], cfg[1], cfg[2]
+    r, c = cfg[1], cfg[2]
     if len(live.init_widths) != c or len(live.init_heights) != r:
         # creation itself is broken; the model takes what is demanded and the state check reports it
         return TableRef(r, c, [0] * c, [0] * r, cfg_texts(cfg))
